@@ -944,6 +944,12 @@ def _fit_result(aggname, keys):
         h.default_replay = lambda ev: {"target": "verif_replays:gaussian_aggregate_replay", "args": [list(keys) if keys else ["postal_code"]], "check": "result['exc'] is None and result['ok']"}
         h.contracts[WM] = theory_ext.weighted_median_contract
         h.contracts[BS] = theory_ext.boot_sigma_contract
+        # precondition of fit (C14.gaussian.split.calibration_rows_ge_3 at the top-level call; kept by both recursive calls, units
+        # fit_cascade_step.*): no calibration unit at all, or at least three
+        h.requires("no_or_at_least_three_calibration_units", z3.Or(cal.axis.n == 0, cal.axis.n >= 3))
+        # _fit is inlined here: its precondition "every group holds >= 2 calibration units" (what the bootstrapped scale needs) is
+        # established for exactly the branch that reaches it by fit_cascade_step.*.single_fit.every_group_holds_at_least_three...
+        h.interp.group_rows_at_least = 2
         alpha = h.real("alpha")
         calls = []
 
